@@ -1,5 +1,5 @@
 (* C18 - Search info lines are well-formed and within score bounds (model-level part). *)
-From Walleye Require Import Model.Search Proofs.MateText.
+From Walleye Require Import Model.Search Proofs.MateText Proofs.RootInfo.
 Open Scope Z_scope.
 
 (* the shape of the line: fixed keywords in fixed order around the numbers *)
@@ -19,6 +19,18 @@ Proof. exact mate_number_nonzero. Qed.
 Theorem C18_abort_value_never_cp : mate_number NEG_INF <> None /\ mate_number POS_INF <> None.
 Proof. exact abort_value_not_cp. Qed.
 
+(* every improvement the search reports -- for every position, record, ordering oracle, expiry index,
+   and any fuel below 20000 -- has depth >= 1 and an evaluation within the mate magnitude: never the
+   infinity sentinel of an aborted sub-search (MATE_SCORE < POS_INF) *)
+Theorem C18_reported_scores_in_range : forall zt osort k fuel,
+  NULL_PLY_OFFSET * Z.of_nat fuel + 1 <= 2 * MATE_SCORE ->
+  forall b t ev s, get_best_move zt osort k fuel b t = Ok (ev, s) ->
+  Forall (fun e => match e with
+                   | Info d x line => 1 <= d /\ - MATE_SCORE <= x <= MATE_SCORE
+                   | Send _ => True end) ev.
+Proof. exact reported_scores_in_range. Qed.
+
+Print Assumptions C18_reported_scores_in_range.
 Print Assumptions C18_info_line_shape.
 Print Assumptions C18_cp_inside_window.
 Print Assumptions C18_mate_number_nonzero.
